@@ -1,6 +1,7 @@
 SPECIFICATION Spec
 CONSTANTS
   FullWidthPad = FALSE
+  WsIgnored = TRUE
   EReps = {1, 2, 1000}
   CovReps = {1000}
   VReps = {1}
@@ -11,5 +12,7 @@ CONSTANTS
   ERowReps = {1, 3, 1000}
   VRowReps = {1, 3}
   MaxArea = 70000
-INVARIANTS ColsAgree PendingOnlyEmpty Incremental Refines Dump
+  WsNames = {}
+  PwNames = {""}
+INVARIANTS ColsAgree PendingOnlyEmpty NoError Incremental Refines Dump
 CHECK_DEADLOCK FALSE
